@@ -32,6 +32,12 @@ def render_value(I, st, caller, tytext, ref):
     if t in INT_TYPES and INT_TYPES[t][0] == 0:
         bits = {"u8": 8, "u16": 16, "u32": 32, "u64": 64, "usize": 64, "u128": 128}[t]
         return sstr.decimal(v, bits), st
+    if t in INT_TYPES and INT_TYPES[t][0] < 0:
+        # signed integer: only the non-negative case is rendered (a possibly negative value is refused, not guessed)
+        if I.feasible(st, v < 0):
+            raise Unencodable("Display of a possibly negative %s" % t)
+        bits = {"i8": 8, "i16": 16, "i32": 32, "i64": 64, "isize": 64, "i128": 128}[t]
+        return sstr.decimal(v, bits - 1), st
     if t in ("String", "str"):
         return as_symstr(I, st, v), st
     # user type: run its Display::fmt body against an accumulator
